@@ -99,8 +99,9 @@ type cliOutcome struct {
 	ReqWire [][]byte // encoding of each call's request, taken before the call
 	Results []cliResult
 	Writes  []cliWrite
-	CloseAt int
-	Problem string
+	CloseAt   int
+	CloseLeft int // reads still in progress at the instant Close returned
+	Problem   string
 }
 
 func (sc cliScenario) tick() time.Duration {
@@ -195,6 +196,11 @@ func runCliScenario(t *testing.T, sc cliScenario) cliOutcome {
 			}
 			closed = true
 			_ = ad.close()
+			// "Close always stops the receive loop and returns": when Close has returned, the loop's read has returned
+			// too (sampled at once, before this goroutine yields)
+			if n := conn.ActiveReads(); n != 0 && out.CloseLeft == 0 {
+				out.CloseLeft = n
+			}
 			out.CloseAt = ticksOf(conn.Since())
 			if sc.DoubleClose {
 				if err := ad.close(); err != nil {
@@ -504,6 +510,9 @@ func cmpCli(prop string, sc cliScenario, got cliOutcome, asp int) *obs.Fail {
 			return obs.Failf(prop+"/"+name+"/"+key, "every call returns and Close leaves no goroutine behind", "%s", clipS(got.Problem))
 		}
 		return nil
+	}
+	if got.CloseLeft != 0 && asp&aspTiming != 0 {
+		return obs.Failf(prop+"/"+name+"/close-returned-before-the-receive-loop-stopped", "when Close returns the receive loop has stopped (its read has returned)", "%d read(s) still in progress", got.CloseLeft)
 	}
 	if sc.blockedAcrossDeadline() {
 		return cmpCliLoose(prop, name, sc, got)
